@@ -804,6 +804,22 @@ class Translator:
 
     def full_expr_stmt(self, s):
         dropped = self.droppable(s)
+        if dropped and self.opts.get("stream_eval_operands"):
+            # the formatting itself is dropped, but every operand of the << chain is still evaluated (its side effects, and any
+            # undefined behaviour inside it, stay visible)
+            self.rule("dropped:" + dropped + " (operands evaluated)")
+            ops = []
+            def walk(n):
+                while n.get("kind") in ("ExprWithCleanups", "ParenExpr", "ImplicitCastExpr", "MaterializeTemporaryExpr", "CXXBindTemporaryExpr") and n.get("inner"):
+                    n = n["inner"][0]
+                if n.get("kind") == "CXXOperatorCallExpr" and len(n.get("inner", [])) == 3:
+                    walk(n["inner"][1])
+                    ops.append(n["inner"][2])
+            walk(s)
+            out = []
+            for o in ops:
+                out.append(X("expr", X("cast", "void", self.discard(o))))
+            return out + self.flush_temp_dtors()
         if dropped:
             self.rule("dropped:" + dropped)
             return []
